@@ -91,10 +91,12 @@ class Execution(object):
         c = sqlite3.connect('file:%s?mode=ro' % self.eng.h.dbfile, uri=True)
         try:
             pg = dict(c.execute('select uuid, generation from resource_providers').fetchall())
-            cg = dict(c.execute('select uuid, generation from consumers').fetchall())
+            rows = c.execute('select uuid, generation, id from consumers').fetchall()
+            cg = {r[0]: r[1] for r in rows}
+            ci = {r[0]: r[2] for r in rows}
         finally:
             c.close()
-        return pg, cg
+        return pg, cg, ci
 
     # -- hooks ---------------------------------------------------------------------------
     def _on_begin(self, run):
@@ -116,8 +118,9 @@ class Execution(object):
         o = _h((sorted((t, bd.get(t)) for t in txn.reads if t in self.eng.cols),
                 sorted(txn.writes), txn.outcome))
         self.obs[i].append(o)
-        pg, cg = self.begin_gens[i] or ({}, {})
-        self.txn_info[i].append({'pgens': pg, 'cgens': cg, 'writes': sorted(txn.writes),
+        pg, cg, ci = self.begin_gens[i] or ({}, {}, {})
+        self.txn_info[i].append({'pgens': pg, 'cgens': cg, 'cids': ci,
+                                 'writes': sorted(txn.writes), 'reads': sorted(txn.reads),
                                  'outcome': txn.outcome, 'nested': txn.nested,
                                  'nstmts': len(txn.stmts)})
 
@@ -557,6 +560,22 @@ class Judge(object):
                             # null = "must not exist yet": this request created the row itself
                             # in an earlier transaction of its own
                             at = None
+                        rows = {t['cids'].get(c) for t in ex.txn_info[i]
+                                if 'consumers' in t['reads'] or 'consumers' in t['writes']
+                                } - {None}
+                        # (table-level read sets: only judged for requests naming one consumer, where
+                        # every transaction touching `consumers` concerns that consumer)
+                        if g is not None and len(rows) > 1 and \
+                                len(carried_consumer_gens(reqs_[i])) == 1:
+                            # the record the request verified its generation against was deleted
+                            # and another one created under the same uuid while it was in flight
+                            add('c06-incarnation:%s' % tags[i],
+                                '%s carried consumer generation %r for %s and succeeded although '
+                                'the consumer record it had read was removed and re-created by '
+                                'other requests in the meantime (record ids seen at its '
+                                'transaction begins: %s): it replaced allocations written after '
+                                'it last read the consumer (schedule %s)' % (
+                                    tags[i], g, c, sorted(rows), sched))
                         if at != g:
                             add('c06-stale-success:%s' % tags[i],
                                 '%s carried consumer generation %r for %s and succeeded, but at '
